@@ -84,7 +84,7 @@ def check_radials(acc, rng):
             # minimum the slope at the point itself is ~0 while the stencil reaches slopes many decades larger)
             scale = max(abs(radial.dU(r)), abs(radial.dU(r + hh)), abs(radial.dU(max(r - hh, 1e-300)))) * speed + 1e-300
             wit = {"kind": kind, "params": params, "L": L, "s": [x.hex() for x in s], "d": d, "speed": speed, "c": [c1, c2]}
-            if not isinstance(got, float) or got != got or abs(got - want) > 1e-7 * scale:
+            if not isinstance(got, float) or got != got or abs(got - want) > 1e-6 * scale:
                 acc.violation("C03:derivative-differs-from-energy-gradient",
                               f"{kind}{params}: derivative(v={vel}, s={s}, c={c1, c2}) = {got!r}, -dU/ds_d*speed of the "
                               f"independent energy = {want!r}", wit)
@@ -331,7 +331,7 @@ def main(ctx):
                 "periodicity, oddness, transverse symmetry, axis permutation, linearity in charges and speed, box-length scaling, "
                 "bending derivatives summing to zero; copy/deepcopy/pickle/dill clones of the C object must agree bit for bit; "
                 "the same under ASan+UBSan incl. construct/copy/destroy for Fourier cut-offs 0..12; distinct = argument tuples")
-    ctx.assumptions = ["finite-difference tolerance 1e-7 (closed forms) / 1e-8 (lattice sum) of the natural scale |q|(1/L^2+1/r^2)",
+    ctx.assumptions = ["finite-difference tolerance 1e-6 (closed forms, relative to the largest slope within the stencil) / 1e-8 (lattice sum) of the natural scale |q|(1/L^2+1/r^2)",
                        "the Ewald oracle is only used where its two splittings agree to 1e-9"]
     nsh = ctx.pick(16, 64)
     rounds, npoints = ctx.pick((10, 100), (40, 300))
@@ -444,7 +444,7 @@ def replay(acc, w):
         want = -richardson(lambda sd: radial.U(math.sqrt(rho2 + sd * sd)), s[d], 1e-3 * r) * x["speed"]
         hh = 1e-3 * r
         scale = max(abs(radial.dU(r)), abs(radial.dU(r + hh)), abs(radial.dU(max(r - hh, 1e-300)))) * x["speed"] + 1e-300
-        if abs(got - want) > 1e-7 * scale:
+        if abs(got - want) > 1e-6 * scale:
             acc.violation(w["key"], f"replayed: derivative {got!r}, gradient of the independent energy {want!r}", x)
     else:
         acc.notes.append("replay: re-run the check with the recorded seed")
